@@ -61,7 +61,11 @@ class Check(HCheck):
         LH = b"s:http|h:LOCALHOST|"
         case = [al.rule(LH, "path1"), al.page(LH + b"p:x|"), al.page(LH + b"p:y|p:z|", True), al.REOPEN, al.unrule(LH), al.clear("never", {LH: "path2"})]
         sr = [al.page(Ax), al.page(Axy, True), al.as_str(al.page(Ab + b"p:k|")), al.rule(Ab, "path2"), al.REOPEN, al.delete(0)]
+        # ids chosen by the caller (the API accepts any) larger than anything the index issued:
+        # the counter must not depend on whether a reopen happened in between
+        cid = [al.addprefix(Az, ("id", 7)), al.page(Bb), al.page(Ax), al.create(C1), al.rmprefix(Az), al.REOPEN, al.clear("domain", {})]
         return [
+            Space(Cfg("domain"), cid, 5 if thorough else 4, name="life/caller-chosen-ids", dedup=False),
             Space(Cfg("domain", {A: "path1"}, str_rules=True), sr, 5 if thorough else 4, name="life/str-rule-anchors", dedup=False),
             Space(Cfg("never"), case, 5 if thorough else 4, name="life/letter-case", dedup=False),
             # every sequence over a small alphabet, no merging of byte-equal states
